@@ -5,6 +5,7 @@ import RF.Driver.FileLines
 import RF.Driver.FormatDiff
 import RF.Driver.Backup
 import RF.Driver.Modules
+import RF.Driver.Sort
 /-!
 `rfmodel`: one request per line on stdin, one response per line on stdout.
 `?` is printed for a request no handler understands (the harness treats it as a protocol error,
@@ -18,7 +19,8 @@ def handlers : List (String → List String → Option String) :=
    RF.Driver.FileLines.handle,
    RF.Driver.FormatDiff.handle,
    RF.Driver.Backup.handle,
-   RF.Driver.Modules.handle]
+   RF.Driver.Modules.handle,
+   RF.Driver.Sort.handle]
 
 def dispatch (line : String) : String :=
   match (line.trimAscii.toString.splitOn " ").filter (· ≠ "") with
